@@ -104,7 +104,9 @@ def history_oracle(cfg, rng, seed_base):
     lo, up = [float(v) for v in cl.param.param_bounds[0]], [float(v) for v in cl.param.param_bounds[1]]
     # a lens with an individual kappa distribution always draws: such configurations are never sharp
     has_individual = any("los_distribution_individual" in kw for kw, _, _ in cfg["lenses"])
-    sharp = rng.random() < 0.6 and not has_individual
+    # scatters sampled in log10-space (log_scatter) are 10**x > 0 for every vector: no sharp point exists when one is sampled
+    log_scatter_sampled = bool(cfg["model"].get("log_scatter")) and any(n in c02.LOGGED and n != "sigma_v_sys_error" for n in names)
+    sharp = rng.random() < 0.6 and not has_individual and not log_scatter_sampled
     pts = []
     for k in range(rng.randint(3, 6)):
         kind = rng.choice(["inside", "inside", "face", "far_outside", "just_outside"])
